@@ -198,6 +198,67 @@ def r6(ctx):
         ctx.ob(run.qual, "alignment-overlapping-two-regions-written-once", ok, run.loc(loop), why if ok else ("%s: fetch() returns every alignment overlapping the region, so one that overlaps two --regions of a chromosome is written (and listed) twice" % why if ok is False else why))
 
 
+def r7(ctx):
+    """Which alignments contribute alleles to a read: ReadSetReader._usable_alignments yields an alignment exactly if it is
+    mapped, not secondary, at or above the mapping-quality threshold, and supplementary / duplicate only where the reader was
+    asked to use those.  A secondary alignment that passes is grouped with the primary one of the same name and votes on its
+    haplotype with the alleles of another locus.  Decided over all valuations of the seven tests from the path summaries of
+    one loop iteration (guard clauses, one condition, a predicate helper or a flag: the shape does not matter)."""
+    import itertools
+    from sa import pathfx
+    from rules.common import tt_eval
+
+    fi = ctx.func("whatshap.variants.ReadSetReader._usable_alignments")
+    cfg = ctx.cfg(fi)
+    loops = [n for n in walk_function(fi.node) if isinstance(n, ast.For) and isinstance(n.iter, ast.Call) and u(n.iter.func).endswith(".fetch") and isinstance(n.target, ast.Name)]
+    ctx.require(len(loops) == 1, "fetch loop not found in _usable_alignments")
+    al = loops[0].target.id
+    B = "%s.bam_alignment" % al
+    A = ["%s.is_supplementary" % B, "self._use_supplementary", "%s.mapping_quality < self._mapq_threshold" % B, "%s.is_secondary" % B, "%s.is_unmapped" % B, "%s.is_duplicate" % B, "self._duplicates"]
+    usable = lambda v: not (v[0] and not v[1]) and not v[2] and not v[3] and not v[4] and not (v[5] and not v[6])
+    try:
+        sums = pathfx.iteration_summaries(cfg, loops[0])
+    except OverflowError:
+        sums = []
+    if not sums:
+        ctx.ob(fi.qual, "usable-alignments-decision", None, fi.loc(), "cannot enumerate the paths of one iteration of the fetch loop")
+        return
+    table, unread = {}, None
+    for ps in sums:
+        conds = []
+        for t, pol in ps.atoms:
+            if t.startswith("<iter>"):
+                continue
+            if t.startswith("<infeasible"):
+                conds = None
+                break
+            try:
+                conds.append((ast.parse(t, mode="eval").body, t, pol))
+            except SyntaxError:
+                unread = t
+        if conds is None:
+            continue
+        yielded = any(e_[0] == "yield" and e_[1] is not None and u(e_[1]) == al for e_ in ps.effects)
+        for vals in itertools.product((False, True), repeat=len(A)):
+            env = dict(zip(A, vals))
+            try:
+                if all(tt_eval(e_, env) == pol for e_, t, pol in conds):
+                    table.setdefault(vals, set()).add(yielded)
+            except ValueError as ex:
+                unread = str(ex)
+                break
+    if unread is not None:
+        ctx.ob(fi.qual, "usable-alignments-decision", None, fi.loc(), "the loop tests something this rule does not read (%s)" % unread[:80])
+        return
+    wrong = [v for v in itertools.product((False, True), repeat=len(A)) if table.get(v) != {usable(v)}]
+    names = ["supplementary", "use_supplementary", "mapq below threshold", "secondary", "unmapped", "duplicate", "use duplicates"]
+    why = ""
+    if wrong:
+        v = wrong[0]
+        why = "with %s the alignment is %s" % (", ".join("%s=%s" % (n_, x_) for n_, x_ in zip(names, v) if x_), "yielded" if True in table.get(v, set()) else "not yielded")
+    ctx.ob(fi.qual, "usable-alignments-decision", not wrong, fi.loc(loops[0]), "over all 128 valuations an alignment is used exactly if it is mapped, not secondary, not below the MAPQ threshold, and supplementary / duplicate only when the reader uses those" if not wrong else "_usable_alignments does not select exactly the usable alignments: %s" % why)
+
+
 def r1(ctx):
     run = ctx.func(MOD + ".run_haplotag")
     cfg = ctx.cfg(run)
@@ -629,7 +690,8 @@ RULES = [
     ("C10.R4", "tie and empty rejection; tuple layouts; tag values", r4),
     ("C10.R5", "variant cursor skips only variants strictly left of the read", r5),
     ("C10.R6", "exactly once under --regions: an alignment overlapping two regions is skipped where an earlier region returned it", r6),
+    ("C10.R7", "only mapped, non-secondary alignments of sufficient mapping quality contribute alleles to a read", r7),
 ]
 # instance floors: about 60% of the instances confirmed by hand on the reference tree -- a rule that suddenly matches far fewer
 # sites fails the run (exit 2); a clean-up that merges two sites into one does not
-FLOORS = {"C10.R1": 5, "C10.R2": 3, "C10.R3": 4, "C10.R4": 9, "C10.R5": 2, "C10.R6": 1}
+FLOORS = {"C10.R1": 5, "C10.R2": 3, "C10.R3": 4, "C10.R4": 9, "C10.R5": 2, "C10.R6": 1, "C10.R7": 1}
